@@ -609,6 +609,8 @@ func propC05(c *Ctx) {
 	c.ruleLoopsCoverAll("C05-LOOPS-COVER-ALL")
 	c.rulePathVerbatim("C05-PATH-VERBATIM")
 	c.ruleKindVisitedAll("C05-KIND-VISITED-ALL") // a reference in a directive that nobody looks at is not resolved
+	c.ruleStringerIdentity("C05-STRINGER-IDENTITY")
+	c.ruleDisallowedCalls("C05-DISALLOWED-CALLS")
 	c.ruleLoopFlags("C05-LOOP-FLAG")
 }
 
@@ -1505,5 +1507,60 @@ func (c *Ctx) ruleKindVisitedAll(rule string) {
 		default:
 			r.Bad(rule, "kind "+kind, "no handler and no code branches on this kind", "")
 		}
+	}
+}
+
+// ---------- the text of a string-typed name is the name ----------
+
+// ruleStringerIdentity: ids and keys are put together from String() of their parts (an interaction id from protocol,
+// method and path), while the same parts are also emitted, compared and used as map keys as they are. For a named type
+// that IS a string, String() therefore has to give back the value itself: a String() that tidies the value up makes the
+// id say one thing and the field another, and lets two different values collide under one key.
+func (c *Ctx) ruleStringerIdentity(rule string) {
+	r := c.R
+	r.Rule(rule, "for every named type of the library whose underlying type is string and which has a String() method: the method returns the receiver converted to string and nothing else (ids and JSON keys are built from String(), fields and map keys from the value itself: the two must be the same text)", 1)
+	n := 0
+	for _, f := range c.libFns() {
+		if f.Obj.Name() != "String" || f.Decl.Recv == nil || len(f.Decl.Recv.List) != 1 {
+			continue
+		}
+		sig := f.Obj.Type().(*types.Signature)
+		if sig.Params().Len() != 0 || sig.Results().Len() != 1 {
+			continue
+		}
+		rt := sig.Recv().Type()
+		if p, ok := rt.(*types.Pointer); ok {
+			rt = p.Elem()
+		}
+		if bt, ok := rt.Underlying().(*types.Basic); !ok || bt.Info()&types.IsString == 0 {
+			continue
+		}
+		n++
+		key := f.Name()
+		ident := false
+		if len(f.Decl.Body.List) == 1 && len(f.Decl.Recv.List[0].Names) == 1 {
+			if ret, ok := f.Decl.Body.List[0].(*ast.ReturnStmt); ok && len(ret.Results) == 1 {
+				e := ast.Unparen(ret.Results[0])
+				if call, ok := e.(*ast.CallExpr); ok && len(call.Args) == 1 {
+					if tv, ok := f.Pkg.TypesInfo.Types[call.Fun]; ok && tv.IsType() {
+						e = ast.Unparen(call.Args[0])
+					}
+				}
+				if st, ok := e.(*ast.StarExpr); ok {
+					e = ast.Unparen(st.X)
+				}
+				if id, ok := e.(*ast.Ident); ok && f.Pkg.TypesInfo.Uses[id] == f.Pkg.TypesInfo.Defs[f.Decl.Recv.List[0].Names[0]] {
+					ident = true
+				}
+			}
+		}
+		if ident {
+			r.Ok(rule, key, "returns the value itself", c.pos(f.Decl.Pos()))
+		} else {
+			r.Bad(rule, key, "String() of a string-typed name computes something else than the value: ids and JSON keys (built from String()) no longer agree with the fields and map keys (built from the value), and two different values can meet under one key", c.pos(f.Decl.Pos()))
+		}
+	}
+	if n == 0 {
+		r.Ok(rule, "library", "no string-typed name has a String() method", "")
 	}
 }
